@@ -1247,3 +1247,19 @@ Proof.
     destruct c' as [s k ob| |s ns]; [| exfalso; exact (proj2 A4) |]; (split; [reflexivity | split; [exact A2 | exact (proj1 A4)]]).
   - destruct AS as [e [A1 A2]]. rewrite A1. eauto.
 Qed.
+
+(* ---- consequences used by the property files ---- *)
+Lemma cause_rel_test_iff cz e : cause_rel cz e -> (e = ETestFailed <-> cz = FTest).
+Proof.
+  destruct cz; simpl; intro H; split; intro E; subst; try reflexivity; try discriminate;
+    try (destruct H as [H|[H|H]]; discriminate).
+Qed.
+
+Lemma cause_rel_missing cz e : cause_rel cz e -> cz = FMissingMember \/ cz = FUnreachable -> e = EMissing.
+Proof. intros H [-> | ->]; exact H. Qed.
+
+Lemma cause_rel_not_limit cz e : cause_rel cz e -> is_copy_limit e = false.
+Proof.
+  destruct cz; simpl; intro H; subst; try reflexivity; try (apply plain_nocl; exact H).
+  destruct H as [->|[->| ->]]; reflexivity.
+Qed.
